@@ -3,8 +3,9 @@
     - [SpellingCorruption] in ALL modes (artificial with or without a character dictionary, realistic, mixed), with the
       parameters of the code: [C15_Spell.spell_text] (builder L) on the parsed content of the two files;
     - [JsonDecode] as a stage with a constructor of its own (J's [json_decode]);
-    - [ChatDecode]: serde's typed deserialisation of [Vec<ChatMessage>] read off a [JSON_Model] value, and
-      [ChatTemplate::format] (src/data/utils.rs:108-192);
+    - [ChatDecode]: serde_json's typed deserialisation of [Vec<ChatMessage>] (the derived visitor in map and sequence
+      form, [ignore_value] for unknown members) over the lexical pieces of [JSON_Model], and [ChatTemplate::format]
+      (src/data/utils.rs:108-192);
     - [TokenMasking] (src/data/postprocessing.rs:120-171): the constructor's binary64 arithmetic, the masking loop, and
       [rand_distr::Geometric] from [RNG_Geometric].
 
@@ -73,42 +74,254 @@ Definition K_PARTIAL : str := [112; 97; 114; 116; 105; 97; 108]%N.
 (** "{text}" *)
 Definition PAT_TEXT : str := [123; 116; 101; 120; 116; 125]%N.
 
-(** the visitor serde derives for [struct ChatMessage { text: String, role: String, #[serde(default)] partial: bool }],
-    map form: members in text order; a known key twice is "duplicate field", a wrong type "invalid type", an unknown
-    key is ignored, [text] / [role] must be present *)
-Fixpoint msg_fields (ms : list (str * jvalue)) (t r : option str) (p : option bool) : option chat_msg :=
-  match ms with
-  | [] => match t, r with
-          | Some t', Some r' => Some (mk_cm t' r' (match p with Some b => b | None => false end))
-          | _, _ => None
+Local Open Scope N_scope.
+(** ** [ignore_str] (serde_json read.rs): like [parse_str] without building the text and WITHOUT the surrogate check of
+    \u escapes: any four hex digits pass *)
+Fixpoint istr (s : str) : option str :=
+  match s with
+  | [] => None
+  | c :: r =>
+    if c =? 34 then Some r
+    else if c =? 92 then
+      match r with
+      | [] => None
+      | e :: r1 =>
+        if e =? 117 then
+          match r1 with
+          | h1 :: h2 :: h3 :: h4 :: r5 => match hex4 h1 h2 h3 h4 with Some _ => istr r5 | None => None end
+          | _ => None
           end
-  | (k, v) :: rest =>
-      if nlist_eqb k K_TEXT then
-        match t, v with None, JStr s => msg_fields rest (Some s) r p | _, _ => None end
-      else if nlist_eqb k K_ROLE then
-        match r, v with None, JStr s => msg_fields rest t (Some s) p | _, _ => None end
-      else if nlist_eqb k K_PARTIAL then
-        match p, v with None, JBool b => msg_fields rest t r (Some b) | _, _ => None end
-      else msg_fields rest t r p
+        else match simple_escape e with Some _ => istr r1 | None => None end
+      end
+    else if c <? 32 then None
+    else istr r
   end.
 
-(** sequence form: [text, role] or [text, role, partial]; a fourth element is "trailing characters" *)
-Definition msg_of_value (v : jvalue) : option chat_msg :=
-  match v with
-  | JObj ms => msg_fields ms None None None
-  | JArr [JStr t; JStr r] => Some (mk_cm t r false)
-  | JArr [JStr t; JStr r; JBool b] => Some (mk_cm t r b)
-  | _ => None
+(** ** [ignore_value] (de.rs:1102): the json grammar without the f64 range check of numbers and without a recursion
+    limit.  [Some rest] = the text after the value.  The code keeps an explicit stack; this is the same language by
+    recursive descent (fuel: the length of the text). *)
+Fixpoint ign (fuel : nat) (s : str) : option str :=
+  match fuel with
+  | O => None
+  | S f =>
+    (** elements of an array after '[' / after a value *)
+    let fix arr (g : nat) (first : bool) (s : str) : option str :=
+      match g with
+      | O => None
+      | S g' =>
+        match skip_ws s with
+        | [] => None
+        | c :: r =>
+          if c =? 93 then Some r
+          else if first then match ign f (c :: r) with Some s' => arr g' false s' | None => None end
+          else if c =? 44 then match ign f r with Some s' => arr g' false s' | None => None end
+          else None
+        end
+      end in
+    let fix obj (g : nat) (first : bool) (s : str) : option str :=
+      match g with
+      | O => None
+      | S g' =>
+        match skip_ws s with
+        | [] => None
+        | c :: r =>
+          if c =? 125 then Some r
+          else
+            let member (r : str) :=
+              match skip_ws r with
+              | q :: r1 =>
+                if q =? 34 then
+                  match istr r1 with
+                  | Some r2 => match skip_ws r2 with
+                               | k :: r3 => if k =? 58 then match ign f r3 with Some s' => obj g' false s' | None => None end
+                                            else None
+                               | [] => None
+                               end
+                  | None => None
+                  end
+                else None
+              | [] => None
+              end in
+            if first then member (c :: r)
+            else if c =? 44 then member r
+            else None
+        end
+      end in
+    match skip_ws s with
+    | [] => None
+    | c :: r =>
+      if c =? 110 then match plit [117; 108; 108] JNull r with POk (_, r') => Some r' | _ => None end
+      else if c =? 116 then match plit [114; 117; 101] JNull r with POk (_, r') => Some r' | _ => None end
+      else if c =? 102 then match plit [97; 108; 115; 101] JNull r with POk (_, r') => Some r' | _ => None end
+      else if c =? 34 then istr r
+      else if c =? 91 then arr (S (length r)) true r
+      else if c =? 123 then obj (S (length r)) true r
+      else if (c =? 45) || is_digit c then
+        match lex_number (c :: r) with Some (_, r') => Some r' | None => None end
+      else None
+    end
+  end.
+Definition ignore_value (s : str) : option str := ign (S (length s)) s.
+
+
+Local Close Scope N_scope.
+Local Open Scope N_scope.
+(** [String::deserialize]: whitespace, a double quote, [parse_str] *)
+Definition typed_string (s : str) : option (str * str) :=
+  match skip_ws s with
+  | c :: r => if c =? 34 then pstr r else None
+  | [] => None
+  end.
+(** [bool::deserialize]: whitespace, true | false *)
+Definition typed_bool (s : str) : option (bool * str) :=
+  match skip_ws s with
+  | c :: r =>
+      if c =? 116 then match plit [114; 117; 101] JNull r with POk (_, r') => Some (true, r') | _ => None end
+      else if c =? 102 then match plit [97; 108; 115; 101] JNull r with POk (_, r') => Some (false, r') | _ => None end
+      else None
+  | [] => None
   end.
 
-(** [serde_json::from_str::<Vec<ChatMessage>>(s)] through the [Value] grammar.  Stated restriction: a text whose
-    IGNORED members hold something [Value] refuses and [IgnoredAny] accepts (a number outside the f64 range, nesting
-    deeper than 127) parses in the code and not here; the harness does not produce such texts. *)
+(** the visitor serde derives for [struct ChatMessage { text: String, role: String, #[serde(default)] partial: bool }],
+    map form, on the text after '{': keys in text order; a known key twice is "duplicate field", a value of the wrong type
+    "invalid type", the value of an unknown key goes through [ignore_value]; [text] and [role] must have been seen at '}' *)
+Fixpoint msg_map (fuel : nat) (first : bool) (s : str) (t r : option str) (p : option bool) : option (chat_msg * str) :=
+  match fuel with
+  | O => None
+  | S f =>
+    match skip_ws s with
+    | [] => None
+    | c :: rest =>
+      if c =? 125 then
+        match t, r with
+        | Some t', Some r' => Some (mk_cm t' r' (match p with Some b => b | None => false end), rest)
+        | _, _ => None
+        end
+      else
+        let member (s1 : str) :=
+          match skip_ws s1 with
+          | q :: s2 =>
+            if q =? 34 then
+              match pstr s2 with
+              | None => None
+              | Some (k, s3) =>
+                match skip_ws s3 with
+                | col :: s4 =>
+                  if col =? 58 then
+                    if nlist_eqb k K_TEXT then
+                      match t, typed_string s4 with
+                      | None, Some (x, s5) => msg_map f false s5 (Some x) r p
+                      | _, _ => None
+                      end
+                    else if nlist_eqb k K_ROLE then
+                      match r, typed_string s4 with
+                      | None, Some (x, s5) => msg_map f false s5 t (Some x) p
+                      | _, _ => None
+                      end
+                    else if nlist_eqb k K_PARTIAL then
+                      match p, typed_bool s4 with
+                      | None, Some (b, s5) => msg_map f false s5 t r (Some b)
+                      | _, _ => None
+                      end
+                    else match ignore_value s4 with
+                         | Some s5 => msg_map f false s5 t r p
+                         | None => None
+                         end
+                  else None
+                | [] => None
+                end
+              end
+            else None
+          | [] => None
+          end in
+        if first then member (c :: rest)
+        else if c =? 44 then member rest
+        else None
+    end
+  end.
+
+(** sequence form, on the text after '[': text, role[, partial] and then ']' *)
+Definition msg_seq (s : str) : option (chat_msg * str) :=
+  match typed_string s with
+  | None => None
+  | Some (t, s1) =>
+    match skip_ws s1 with
+    | c1 :: s2 =>
+      if c1 =? 44 then
+        match typed_string s2 with
+        | None => None
+        | Some (r, s3) =>
+          match skip_ws s3 with
+          | c2 :: s4 =>
+            if c2 =? 93 then Some (mk_cm t r false, s4)
+            else if c2 =? 44 then
+              match typed_bool s4 with
+              | Some (b, s5) => match skip_ws s5 with
+                                | c3 :: s6 => if c3 =? 93 then Some (mk_cm t r b, s6) else None
+                                | [] => None
+                                end
+              | None => None
+              end
+            else None
+          | [] => None
+          end
+        end
+      else None
+    | [] => None
+    end
+  end.
+
+(** [ChatMessage::deserialize] = [deserialize_struct]: a map or a sequence *)
+Definition typed_msg (s : str) : option (chat_msg * str) :=
+  match skip_ws s with
+  | c :: r => if c =? 123 then msg_map (S (length r)) true r None None None
+              else if c =? 91 then msg_seq r
+              else None
+  | [] => None
+  end.
+
+(** the elements of [Vec<ChatMessage>] after '[' *)
+Fixpoint msgs_seq (fuel : nat) (first : bool) (s : str) : option (list chat_msg * str) :=
+  match fuel with
+  | O => None
+  | S f =>
+    match skip_ws s with
+    | [] => None
+    | c :: r =>
+      if c =? 93 then Some ([], r)
+      else
+        let elem (s1 : str) :=
+          match skip_ws s1 with
+          | c1 :: _ => if c1 =? 93 then None     (* trailing comma *)
+                       else match typed_msg s1 with
+                            | Some (m, s2) => match msgs_seq f false s2 with
+                                              | Some (l, s3) => Some (m :: l, s3)
+                                              | None => None
+                                              end
+                            | None => None
+                            end
+          | [] => None
+          end in
+        if first then elem (c :: r)
+        else if c =? 44 then elem r
+        else None
+    end
+  end.
+
+(** [serde_json::from_str::<Vec<ChatMessage>>(s)]: whitespace, '[', the messages, ']', then only whitespace *)
 Definition chat_of_text (s : str) : option (list chat_msg) :=
-  match json_parse s with
-  | Some (JArr l) => map_opt msg_of_value l
-  | _ => None
+  match skip_ws s with
+  | c :: r =>
+      if c =? 91 then
+        match msgs_seq (S (length r)) true r with
+        | Some (l, rest) => match skip_ws rest with [] => Some l | _ => None end
+        | None => None
+        end
+      else None
+  | [] => None
   end.
+
+Local Close Scope N_scope.
 
 Fixpoint role_get (k : str) (m : list (str * str)) : option str :=
   match m with
